@@ -72,6 +72,12 @@ RULE = ("dimension 1/2/3 (sub-checks d1/d2/d3). Per axis one of: float (width 0.
         "construction, defaults omitted, wrapped function as raysect PythonFunctionND object, point coordinates as int / numpy "
         "scalars, evaluation through the C-level evaluate() (raysect MultiplyScalar wrapper cache*1.0), the bounds container "
         "overwritten by the caller after construction. "
+        "Interference / repeat: every case carries a second configuration B of the same class (own function, area, resolution, options; "
+        "in 1/3 of the cases the same area and resolution as A with another function; in 1/2 the same options as A; both are built "
+        "with options equal to their defaults omitted). B is judged on its own against f_B; then a fresh A is evaluated point by "
+        "point, each point twice in a row, B is evaluated in between, and the point once more: all bit-equal to the reference values "
+        "of A alone, B's values bit-equal to B on its own; other order: A built, B built and used, A used for the first time. On one "
+        "cache: p, a sibling point (same leading coordinates, other last coordinate), p again. "
         "Non-trivial: >= 2 evaluated points in one cell, points in >= 2 adjacent cells, and the two orders visit the cells "
         "in different sequences.")
 ASSUMPTIONS = [
@@ -121,7 +127,9 @@ _COMMON = ("fam:mlin", "fam:quad", "fam:sin", "fam:const", "fb:none", "fb:true",
            # entry points / options / input forms: Caching{1,2,3}D.__init__ (positional, keywords, defaults), __call__, C-level evaluate()
            "form:all-keywords", "form:positional", "form:defaults-omitted", "form:nbe-int", "form:area-int", "form:area-numpy",
            "form:res-int", "form:res-numpy", "form:fb-list", "form:fb-ndarray", "form:fn-object", "form:pt-int", "form:pt-numpy",
-           "form:via-evaluate", "caller:fb-mutated-after")
+           "form:via-evaluate", "caller:fb-mutated-after",
+           "interference:A-first", "interference:B-first", "interference:both-defaults", "second:geom-own", "second:geom-same",
+           "second:other-family", "repeat:in-a-row", "repeat:after-other", "repeat:sibling")
 REQUIRED_LABELS = [l for l in
                    ["%s:%s" % (d, x) for d in ("d1", "d2", "d3") for x in _COMMON]
                    + ["d1:cells:large", "d2:cells:large", "d2:aniso", "d3:aniso", "d2:mlin:cross-inside", "d3:mlin:cross-inside"]
@@ -279,7 +287,7 @@ def _forms():
 
 
 @st.composite
-def _case(draw, dim):
+def _case(draw, dim, second=True):
     axes = [draw(_axis(dim)) for _ in range(dim)]
     kind = draw(st.sampled_from(["mlin", "mlin", "quad", "sin", "sin", "const"]))
     amp = 10.0 ** draw(st.integers(-3, 3))
@@ -364,10 +372,23 @@ def _case(draw, dim):
     pts = list(draw(st.permutations(pts)))
     perm = list(draw(st.permutations(list(range(len(pts))))))
     alts = list(draw(st.permutations([m for m in ("none", "true", "loose", "degenerate") if m != fb])))[:2]
-    return {"dim": dim, "area": area, "res": res, "nbe": draw(st.booleans()), "fb": fb,
+    case = {"dim": dim, "area": area, "res": res, "nbe": draw(st.booleans()), "fb": fb,
             "fb_x": [draw(st.sampled_from([0.0, 1.0, 10.0, 100.0])) * draw(st.floats(0.0, 1.0)) for _ in range(2)],
             "alts": alts, "forms": draw(_forms()),
             "f": fn, "pts": pts, "perm": perm, "shrunk": shrunk}
+    if not second:
+        return case
+    # a second cache B of the same class with different parameters, alive at the same time (interference)
+    b = draw(_case(dim, second=False))
+    sec = {"dim": dim, "area": b["area"], "res": b["res"], "f": b["f"], "nbe": b["nbe"], "fb": b["fb"], "fb_x": b["fb_x"],
+           "pts": b["pts"][:4], "geom": "own"}
+    if draw(st.sampled_from([False, False, True])):       # same grid shape as A, different function
+        if not (EXCLUDE_ILL and b["f"]["kind"] == "sin" and kappa_of(dim, area, res, b["f"]) > KAPPA_CAP):
+            sec.update(area=area, res=res, pts=pts[:4], geom="same")
+    if draw(st.booleans()):                               # same way of construction as A (same options left to their defaults)
+        sec.update(nbe=case["nbe"], fb=case["fb"], fb_x=case["fb_x"])
+    case["second"] = sec
+    return case
 
 
 # ------------------------------------------------------------------------------------------------ run
@@ -419,13 +440,16 @@ def _fb_of(case, fn, mode):
     return (lo - float(case["fb_x"][0]) * fn.absmax, hi + float(case["fb_x"][1]) * fn.absmax)
 
 
-def _make(case, fn, fbmode=None):
-    """Canonical construction: tuples of Python floats, keywords."""
+def _make(case, fn, fbmode=None, omit_defaults=False):
+    """Canonical construction: tuples of Python floats, keywords (omit_defaults: options equal to their default are not passed)."""
     dim = case["dim"]
     fb = _fb_of(case, fn, case["fb"] if fbmode is None else fbmode)
     area = tuple(float(v) for v in case["area"])
     res = float(case["res"][0]) if dim == 1 else tuple(float(v) for v in case["res"])
-    cache = CLASSES[dim](fn, area, res, no_boundary_error=bool(case["nbe"]), function_boundaries=fb)
+    kw = {"no_boundary_error": bool(case["nbe"]), "function_boundaries": fb}
+    if omit_defaults:
+        kw = {k: v for k, v in kw.items() if not (v is None or v is False)}
+    cache = CLASSES[dim](fn, area, res, **kw)
     S = fn.absmax if fb is None else max(fn.absmax, abs(fb[0]), abs(fb[1]))
     return cache, S
 
@@ -699,6 +723,85 @@ def run(case, ctx):
                       lambda: "forms %r: %r, canonical float/tuple/keyword form: %r at p=%r (passed as %r)" % (forms, v, vA[i], p, q))
         ctx.label(*sorted(set(labels)))
 
+    # ---- interference: a second cache B (other function / area / resolution) alive and used between A's evaluations; repeats
+    sec = case.get("second")
+    if sec:
+        sarea = [float(v) for v in sec["area"]]
+        sres = [float(v) for v in sec["res"]]
+        sgrids = [grid(sarea[2 * a], sarea[2 * a + 1], sres[a]) for a in range(dim)]
+        spts = [tuple(_coord(q[a], sarea[2 * a], sarea[2 * a + 1], sgrids[a]) for a in range(dim)) for q in sec["pts"]]
+
+        def new_pair(which):
+            f_ = Fn(case["f"] if which == "A" else sec["f"], dim, area if which == "A" else sarea, res if which == "A" else sres)
+            with ctx.cut("interference/constructor"):
+                c_, S_ = _make(case if which == "A" else sec, f_, omit_defaults=True)
+            return f_, c_, S_
+
+        # reference for B: evaluated without interleaving, judged against its own function
+        fnR, BR, SB = new_pair("B")
+        kB = kappa_of(dim, sarea, sres, sec["f"])
+        tolB = min(FP_BASE * kB, FP_CAP) * SB
+        nB = [len(g) - 1 for g in sgrids]
+        hB = [max((sgrids[a][-1] - sgrids[a][0]) / nB[a], sres[a]) for a in range(dim)]
+        boundB = C_APPROX * sum(hB[a] ** 2 * fnR.curv[a] for a in range(dim)) + tolB
+        vR = []
+        for q in spts:
+            v = ev(BR, q, "interference/evaluate")
+            vR.append(v)
+            inside = all(sarea[2 * a] <= q[a] <= sarea[2 * a + 1] for a in range(dim))
+            if inside:
+                ctx.check(v is not None and abs(v - fnR.value(q)) <= boundB, "interference/second-value",
+                          lambda: "second cache (built while the first is alive): %r, f_B=%r, bound %.3g at q=%r" % (v, fnR.value(q), boundB, q))
+        # A first, then B built and used between A's evaluations; every A value thrice: twice in a row and again after B was used
+        fn2, A2, _ = new_pair("A")
+        v0 = ev(A2, pts[0], "interference/evaluate")
+        ctx.check(_bits(v0) == _bits(vA[0]), "interference/A-first", lambda: "first value %r, reference %r at p=%r" % (v0, vA[0], pts[0]))
+        fnB, B2, _ = new_pair("B")
+        for i, p in enumerate(pts):
+            v1 = ev(A2, p, "interference/evaluate")
+            v2 = ev(A2, p, "interference/evaluate")
+            ctx.check(_bits(v1) == _bits(vA[i]) and _bits(v2) == _bits(vA[i]), "repeat/in-a-row",
+                      lambda: "A(p) = %r, again %r, reference (A alone) %r at p=%r after B was used %d times" % (v1, v2, vA[i], p, i))
+            if spts:
+                j = i % len(spts)
+                w = ev(B2, spts[j], "interference/evaluate")
+                ctx.check(_bits(w) == _bits(vR[j]), "interference/B-value",
+                          lambda: "B interleaved with A gives %r, B on its own %r at q=%r" % (w, vR[j], spts[j]))
+            v3 = ev(A2, p, "interference/evaluate")
+            ctx.check(_bits(v3) == _bits(vA[i]), "interference/A-after-B",
+                      lambda: "A(p) = %r before and %r after another cache was evaluated (reference %r) at p=%r; B: area %r res %r"
+                      % (v1, v3, vA[i], p, sarea, sres))
+        ctx.label("interference:A-first", "repeat:in-a-row", "repeat:after-other", "second:geom-%s" % sec.get("geom", "own"))
+        if not case["nbe"] and case["fb"] == "none" and not sec["nbe"] and sec["fb"] == "none":
+            ctx.label("interference:both-defaults")
+        if sec["f"]["kind"] != case["f"]["kind"]:
+            ctx.label("second:other-family")
+        # other order: A built, B built and used, then A used for the first time
+        fn3, A3, _ = new_pair("A")
+        fnB3, B3, _ = new_pair("B")
+        for j, q in enumerate(spts):
+            w = ev(B3, q, "interference/evaluate")
+            ctx.check(_bits(w) == _bits(vR[j]), "interference/B-value", lambda: "B gives %r, reference %r at q=%r" % (w, vR[j], q))
+        for i, p in enumerate(pts):
+            v = ev(A3, p, "interference/evaluate")
+            ctx.check(_bits(v) == _bits(vA[i]), "interference/B-first",
+                      lambda: "A used for the first time after B: %r, reference (A alone) %r at p=%r" % (v, vA[i], p))
+        ctx.label("interference:B-first")
+        # same cache: p, a sibling point (same leading coordinates, last coordinate from another point), p again
+        others_ = [j for j in range(len(pts)) if kl[j] != "out" and pts[j][-1] != pts[0][-1]]
+        if kl[0] != "out" and others_:
+            sib = tuple(pts[0][:-1]) + (pts[others_[0]][-1],)
+            _, Cs, _ = new()
+            ref = ev(Cs, sib, "evaluate")
+            va = ev(A3, pts[0], "evaluate")
+            vs = ev(A3, sib, "evaluate")
+            vb = ev(A3, pts[0], "evaluate")
+            ctx.check(_bits(vs) == _bits(ref), "repeat/sibling",
+                      lambda: "sibling point %r right after %r: %r, on a fresh cache %r" % (sib, pts[0], vs, ref))
+            ctx.check(_bits(va) == _bits(vA[0]) and _bits(vb) == _bits(vA[0]), "repeat/after-sibling",
+                      lambda: "A(p) = %r, then elsewhere, then %r (reference %r) at p=%r" % (va, vb, vA[0], pts[0]))
+            ctx.label("repeat:sibling")
+
     # ---- non-triviality
     seqA = [cells[i] for i in range(len(pts)) if vA[i] is not None and kl[i] != "out"]
     seqB = [cells[i] for i in perm if vA[i] is not None and kl[i] != "out"]
@@ -714,7 +817,7 @@ def _given(dim, quick, thorough):
 
 
 SUBCHECKS = {
-    "d1": _given(1, 1200, 40000),
-    "d2": _given(2, 1200, 40000),
-    "d3": _given(3, 500, 16000),
+    "d1": _given(1, 1000, 32000),
+    "d2": _given(2, 900, 28000),
+    "d3": _given(3, 400, 12000),
 }
